@@ -228,7 +228,7 @@ func runUtxo(seed uint64, n int, outDir string, replay string) {
 			defer func() {
 				if p := recover(); p != nil {
 					o.Violate("utxo-panic", fmt.Sprintf("panic: %v at %s", p, stackTop()))
-					ans(fmt.Sprintf("panic %v", p))
+					o.Pad("panic %v", p)
 				}
 			}()
 			// block context
